@@ -234,7 +234,7 @@ func cmdCheck(record bool, args []string) int {
 	// solve
 	results := make([]*OblResult, len(jobs))
 	var wg sync.WaitGroup
-	sem := make(chan struct{}, 12)
+	sem := make(chan struct{}, 8)
 	for i, j := range jobs {
 		wg.Add(1)
 		go func(i int, j job) {
@@ -253,6 +253,11 @@ func cmdCheck(record bool, args []string) int {
 		}(i, j)
 	}
 	wg.Wait()
+	for _, r := range results {
+		if !r.Cover && r.Secs > float64(timeout)/3 && r.Status == "unsat" {
+			fmt.Printf("note: slow obligation %.1fs (%s) %s\n", r.Secs, r.Solver, r.Name)
+		}
+	}
 	if *verbose {
 		for _, r := range results {
 			fmt.Printf("  %-8s %-7s %6.2fs %s\n", r.Status, r.Solver, r.Secs, r.Name)
